@@ -276,6 +276,8 @@ pub enum Block {
     /// bare inline run (no wrapping element)
     Inl(Vec<Inline>),
     Div(Attrs, Vec<Block>),
+    /// block content wrapped in an inline element (`<em><p>..</p><ul>..</ul></em>`)
+    Wrap(ITag, Attrs, Vec<Block>),
     H(u8, Attrs, Vec<Inline>),
     Ul(Attrs, Vec<Item>),
     Ol(Attrs, Option<i64>, Vec<Item>),
@@ -426,6 +428,11 @@ impl Ser {
                 self.open("div", a);
                 self.blocks(k);
                 self.close("div");
+            }
+            Block::Wrap(t, a, k) => {
+                self.open(t.name(), a);
+                self.blocks(k);
+                self.close(t.name());
             }
             Block::H(l, a, i) => {
                 let t = format!("h{}", l);
@@ -595,7 +602,7 @@ pub fn valid_blocks(v: &[Block]) -> bool {
         && v.iter().all(|b| match b {
             Block::P(_, i) | Block::Inl(i) => inl(i),
             Block::H(l, _, i) => (1..=6).contains(l) && inl(i),
-            Block::Div(_, k) | Block::Quote(_, k) => valid_blocks(k),
+            Block::Div(_, k) | Block::Quote(_, k) | Block::Wrap(_, _, k) => valid_blocks(k),
             Block::Ul(_, it) | Block::Ol(_, _, it) => !it.is_empty() && it.iter().all(|x| valid_blocks(&x.kids)),
             Block::Dl(_, it) => !it.is_empty() && it.iter().all(|x| valid_blocks(&x.kids)),
             Block::Pre(_, lines) => !lines.is_empty(),
@@ -622,7 +629,7 @@ pub fn for_runs_mut(v: &mut [Block], f: &mut dyn FnMut(&mut Vec<Inline>)) {
     for b in v {
         match b {
             Block::P(_, i) | Block::Inl(i) | Block::H(_, _, i) => f(i),
-            Block::Div(_, k) | Block::Quote(_, k) => for_runs_mut(k, f),
+            Block::Div(_, k) | Block::Quote(_, k) | Block::Wrap(_, _, k) => for_runs_mut(k, f),
             Block::Ul(_, it) | Block::Ol(_, _, it) => it.iter_mut().for_each(|x| for_runs_mut(&mut x.kids, f)),
             Block::Dl(_, it) => it.iter_mut().for_each(|x| for_runs_mut(&mut x.kids, f)),
             Block::Pre(..) => {}
@@ -692,6 +699,10 @@ pub fn for_attrs_mut(blocks: &mut [Block], f: &mut dyn FnMut(&str, &mut Attrs)) 
                 f("div", a);
                 for_attrs_mut(k, f);
             }
+            Block::Wrap(t, a, k) => {
+                f(t.name(), a);
+                for_attrs_mut(k, f);
+            }
             Block::H(_, a, i) => {
                 f("h", a);
                 inl(i, f);
@@ -758,7 +769,7 @@ pub fn strip_ids(blocks: &mut [Block]) {
         for b in v {
             match b {
                 Block::P(_, i) | Block::Inl(i) | Block::H(_, _, i) => inl(i),
-                Block::Div(_, k) | Block::Quote(_, k) => blk(k),
+                Block::Div(_, k) | Block::Quote(_, k) | Block::Wrap(_, _, k) => blk(k),
                 Block::Ul(_, it) | Block::Ol(_, _, it) => it.iter_mut().for_each(|x| blk(&mut x.kids)),
                 Block::Dl(_, it) => it.iter_mut().for_each(|x| blk(&mut x.kids)),
                 Block::Pre(..) => {}
@@ -837,6 +848,12 @@ pub fn census(blocks: &[Block]) -> Census {
                     inl(i, c)
                 }
                 Block::Div(_, k) => blk(k, c, depth, in_table),
+                Block::Wrap(t, _, k) => {
+                    if matches!(t, ITag::S | ITag::Del) {
+                        c.strikes += 1;
+                    }
+                    blk(k, c, depth, in_table)
+                }
                 Block::Quote(_, k) => {
                     c.quotes += 1;
                     blk(k, c, depth + 1, in_table)
@@ -904,6 +921,8 @@ pub struct G {
     pub max_items: usize,
     pub colspans: bool,
     pub link_names: bool,
+    /// block content wrapped in inline elements
+    pub inline_wrap: bool,
 }
 
 impl Default for G {
@@ -929,6 +948,7 @@ impl Default for G {
             max_items: 3,
             colspans: true,
             link_names: false,
+            inline_wrap: true,
         }
     }
 }
@@ -1196,6 +1216,13 @@ pub fn blocks(g: &G, depth: u32) -> BoxedStrategy<Vec<Block>> {
         if g.tables {
             opts.push((3, table(g, sub.clone())));
         }
+        if g.inline_wrap {
+            let mut tags = vec![ITag::Em, ITag::Strong, ITag::Code, ITag::Span, ITag::Ins, ITag::U];
+            if g.strike {
+                tags.push(ITag::S);
+            }
+            opts.push((1, (prop::sample::select(tags), attrs(g), sub.clone()).prop_map(|(t, a, k)| Block::Wrap(t, a, k)).boxed()));
+        }
         proptest::strategy::Union::new_weighted(opts).boxed()
     };
     prop::collection::vec(item, 1..=g.max_blocks).boxed()
@@ -1236,7 +1263,7 @@ pub fn uniquify_names(blocks: &mut [Block]) {
         for b in v {
             match b {
                 Block::P(_, i) | Block::Inl(i) | Block::H(_, _, i) => inl(i, n),
-                Block::Div(_, k) | Block::Quote(_, k) => blk(k, n),
+                Block::Div(_, k) | Block::Quote(_, k) | Block::Wrap(_, _, k) => blk(k, n),
                 Block::Ul(_, it) | Block::Ol(_, _, it) => it.iter_mut().for_each(|x| blk(&mut x.kids, n)),
                 Block::Dl(_, it) => it.iter_mut().for_each(|x| blk(&mut x.kids, n)),
                 Block::Pre(..) => {}
